@@ -24,9 +24,11 @@ type Scenario struct {
 }
 
 type Client struct {
-	Reqs    []Req
-	Close   string // end (keeps the conn until teardown) | afterRecv | afterSend (closes without reading the last reply)
-	StartAt string // event at which the client starts dialling/sending; "" = srv.started
+	Reqs     []Req
+	Close    string // end (keeps the conn until teardown) | afterRecv | afterSend (closes without reading the last reply)
+	StartAt  string // event at which the client starts dialling/sending; "" = srv.started
+	Pipeline bool   // send all requests before reading any reply
+	Partial  int    // stream, Close == end: afterwards send an incomplete frame and idle: 1 = first prefix octet, 2 = prefix + half a message
 }
 
 type Req struct {
@@ -72,19 +74,26 @@ func (s Scenario) reachable() []string {
 		}
 		out = append(out, fmt.Sprintf("client(%d).dial", j))
 		if s.stream() {
-			out = append(out, fmt.Sprintf("lis.accept.return(%d)", j), fmt.Sprintf("reader.enter(%d,1)", j))
+			out = append(out, fmt.Sprintf("lis.accept.return(%d)", j), "serveconn.start", fmt.Sprintf("reader.enter(%d,1)", j))
 			if s.spied() && s.Transport != "memTLS" {
 				out = append(out, fmt.Sprintf("conn(%d).setReadDeadline(future)", j), fmt.Sprintf("conn(%d).read.enter", j))
 			}
 		}
 		stopped := false
+		if c.Pipeline {
+			for qi := range c.Reqs {
+				out = append(out, fmt.Sprintf("client(%d).sent(%d)", j, qi+1))
+			}
+		}
 		for qi, r := range c.Reqs {
 			q := qi + 1
-			out = append(out, fmt.Sprintf("client(%d).sent(%d)", j, q))
+			if !c.Pipeline {
+				out = append(out, fmt.Sprintf("client(%d).sent(%d)", j, q))
+			}
 			if stopped { // stream: the conn goroutine is still inside an earlier handler
 				break
 			}
-			out = append(out, fmt.Sprintf("handler.enter(%d,%d)", j, q))
+			out = append(out, fmt.Sprintf("accept.policy(%d,%d)", j, q), fmt.Sprintf("handler.enter(%d,%d)", j, q))
 			if qi == len(c.Reqs)-1 && c.Close == "afterSend" {
 				out = append(out, fmt.Sprintf("client(%d).close", j))
 			}
@@ -94,7 +103,7 @@ func (s Scenario) reachable() []string {
 				break
 			}
 			out = append(out, fmt.Sprintf("writer.enter(%d,%d)", j, q), fmt.Sprintf("handler.written(%d,%d)", j, q))
-			if !(qi == len(c.Reqs)-1 && c.Close == "afterSend") {
+			if !(c.Close == "afterSend" && (qi == len(c.Reqs)-1 || c.Pipeline)) {
 				out = append(out, fmt.Sprintf("client(%d).recv(%d)", j, q))
 			}
 			if held {
@@ -112,6 +121,8 @@ func (s Scenario) reachable() []string {
 			allDone = false
 		} else if c.Close == "afterRecv" {
 			out = append(out, fmt.Sprintf("client(%d).close", j))
+		} else if c.Close == "end" && c.Partial > 0 && s.stream() {
+			out = append(out, fmt.Sprintf("client(%d).partial", j))
 		}
 	}
 	if allDone {
@@ -152,6 +163,10 @@ func genScenario(t *rapid.T, transports []string) Scenario {
 		c.Close = rapid.SampledFrom([]string{"end", "end", "afterRecv", "afterRecv", "afterSend"}).Draw(t, "close")
 		if nr == 0 && c.Close == "afterSend" {
 			c.Close = "afterRecv"
+		}
+		c.Pipeline = nr > 1 && rapid.IntRange(0, 3).Draw(t, "pipeline") == 0
+		if s.stream() && c.Close == "end" && rapid.IntRange(0, 3).Draw(t, "partialOn") == 0 {
+			c.Partial = rapid.IntRange(1, 2).Draw(t, "partial")
 		}
 		s.Clients = append(s.Clients, c)
 	}
@@ -278,6 +293,18 @@ func pinFor(s Scenario, ev string) (memnet.Wait, bool) {
 	case scan(ev, "conn(%d).setReadDeadline(future)", &j):
 		// readTCP holds the read lock here; Shutdown must wait for it
 		return memnet.Wait{At: ev, For: "shutdown.call", Once: true, TimeoutMs: 50}, true
+	case ev == "serveconn.start":
+		// the conn's goroutine has started but not yet looked at the started flag
+		return memnet.Wait{At: ev, For: "lis.close", Once: true}, true
+	case scan(ev, "accept.policy(%d,%d)", &j, &q):
+		// the request has been read; the handler starts only after Shutdown has done its part
+		if s.stream() {
+			return memnet.Wait{At: ev, For: "lis.close", Once: true}, true
+		}
+		if s.spied() {
+			return memnet.Wait{At: ev, For: "pc.setReadDeadline(past)", Once: true}, true
+		}
+		return memnet.Wait{At: ev, For: "release", Once: true}, true
 	case ev == "pc.readFrom.enter":
 		return memnet.Wait{At: ev, For: "pc.setReadDeadline(past)", Once: true}, true
 	case ev == "lis.accept.enter":
@@ -313,7 +340,7 @@ func genWait(t *rapid.T, s Scenario, reach []string) memnet.Wait {
 		ats = []string{"pc.setReadDeadline(past)", "pc.readFrom.enter", "pc.readFrom.return(*)", "reader.enter(*)", "pc.writeTo(*)", "pc.setReadDeadline(future)"}
 		fors = []string{"shutdown.call", "pc.setReadDeadline(past)", "release", "handler.exit(*)", "handler.enter(*)", "client(*).sent(*)", "reader.enter(*)"}
 	}
-	ats = append(ats, "handler.enter(*)", "writer.enter(*)", "handler.written(*)", "handler.exit(*)", "shutdown.call", "srv.started")
+	ats = append(ats, "handler.enter(*)", "writer.enter(*)", "handler.written(*)", "handler.exit(*)", "shutdown.call", "srv.started", "accept.policy(*)", "serveconn.start")
 	w := memnet.Wait{Once: true, TimeoutMs: rapid.SampledFrom([]int{20, 40, 80}).Draw(t, "wt")}
 	w.At = rapid.SampledFrom(ats).Draw(t, "at")
 	w.For = rapid.SampledFrom(fors).Draw(t, "for")
